@@ -206,6 +206,29 @@ pub fn gen_case(seed: u64, k: u64, tier: Tier) -> Case {
       }
     }
   }
+  // response headers whose names are spelled in mixed case, twice, with different values and without the
+  // lower-cased spelling: a header map is a HashMap (fresh hasher state per response), so whatever the builder
+  // reads from it must not depend on its iteration order
+  if rng.chance(35) {
+    let js: Vec<String> = c.world.entries.iter().filter(|(s, e)| !s.starts_with("file:") && (s.ends_with(".js") || s.ends_with(".mjs")) && matches!(e, Entry::Module { raw: None, .. })).map(|(k, _)| k.clone()).collect();
+    let targets: Vec<String> = c.world.entries.iter().filter(|(s, e)| attr_class_target(s, true) == 0 && matches!(e, Entry::Module { raw: None, .. })).map(|(k, _)| k.clone()).collect();
+    if !js.is_empty() && targets.len() >= 2 {
+      let m = rng.pick(&js).clone();
+      let a = rng.pick(&targets).clone();
+      let mut b = rng.pick(&targets).clone();
+      if b == a {
+        b = targets.iter().find(|t| **t != a).unwrap().clone();
+      }
+      if let Some(Entry::Module { headers, .. }) = c.world.entries.get_mut(&m) {
+        let mut h: Vec<(String, String)> = headers.clone().unwrap_or_default().into_iter().filter(|(k, _)| k != "x-typescript-types").collect();
+        h.push(("X-TypeScript-Types".to_string(), a));
+        h.push(("X-Typescript-Types".to_string(), b));
+        h.push(("Content-Type".to_string(), "application/typescript".to_string()));
+        h.push(("Content-type".to_string(), "text/javascript".to_string()));
+        *headers = Some(h);
+      }
+    }
+  }
   let mut direct = vec![];
   // reference: immediate-ready loader
   let mut ref_graph = ModuleGraph::new(graph_kind(c.bcfg.kind));
